@@ -347,6 +347,13 @@ def layout(rng, toks, style="mixed"):
             sep = nl if need == "nl" or (prev and prev[0] in ("{", "}")) else (" " if prev else "")
         elif style == "dense":
             sep = nl if need == "nl" else (" " if need == "ws" else "")
+        elif style == "tabs":
+            # tabs everywhere: before, inside and right after every element, several elements per line
+            sep = rng.choice(["\t", " \t", "\t\t", " ", "\t ", "", "\t// c\t" + nl + "\t"]) if rng.random() < 0.9 else nl + "\t"
+            if need == "nl" and not sep.startswith(("\n", "\r\n")):
+                sep = nl + sep
+            if need == "ws" and sep == "":
+                sep = "\t"
         else:
             r = rng.random()
             if r < 0.45:
